@@ -302,7 +302,11 @@ class HybridClass(metaclass=MetaHybridClass):
         defaults = {}
         for field in obj._XoStruct._fields:
             try:
-                defaults[field.name] = field.get_default()
+                default = field.get_default()
+                if hasattr(default, "to_nparray"):  # compare arrays as arrays
+                    default = default.to_nparray()
+                # `fields_to_store` holds the (possibly renamed) python names
+                defaults[obj._rename.get(field.name, field.name)] = default
             except (TypeError, ValueError):
                 # The above can fail with different error types
                 # if a field type is dynamic.
